@@ -148,6 +148,12 @@ Definition deferred (e : event) : bool :=
   | EvRet _ c _ | EvTimedFalse _ c _ _ => is_mon_wait c
   | _ => false
   end.
+(* NOTE on the reach of [indep] (second audit, F6): an event emitted by a deferred access (EvMonSet, EvSigWrite, the return
+   of a Monitor wait) commutes with ANY event of another thread outside its own class - also with EvRet u MonLock /
+   MonUnlock.  The six history predicates of SyncSpec.v do not relate set() to the order of lock / unlock returns, so they
+   are invariant (SyncFineTrace.v).  A history predicate that did ("a set() issued AFTER a waiter has taken the monitor"
+   as a predicate over the history) would NOT be tr_eq-invariant and could not be transferred this way; that clause is a
+   state theorem here (monitor_set_releases_a_waiter, on the fine machine: fine_no_stuck through the ghost mark). *)
 Definition indepb (a b : event) : bool :=
   negb (Nat.eqb (ev_tid a) (ev_tid b)) && (deferred a || deferred b) &&
   negb (sig_class a && sig_class b) && negb (mon_class a && mon_class b).
